@@ -251,6 +251,104 @@ def task_edits(arg):
     return {"counters": counters, "sets": {}, "violations": viol, "samples": []}
 
 
+def reference_midstep(table, cycles, step, mi, new_w):
+    """Distribution of name sequences when, after the first yielded name, the weight of move
+    ``mi`` is set to ``new_w``: forced slots were fixed at the start of the step, the first free
+    slot (if slot 0 is free) used the old weights, later free slots use the new ones."""
+    due = [i for i, (iv, w, m) in enumerate(table) if step % iv == 0]
+    if not due:
+        return {(): 1.0}
+    forced = [i for i in due for _ in range(table[i][2])]
+    w_old = {i: table[i][1] for i in due}
+    w_new = dict(w_old)
+    if mi in w_new:
+        w_new[mi] = new_w
+    dist = {}
+    slots = list(range(cycles))
+    perms = list(itertools.permutations(slots, len(forced)))
+    for perm in perms:
+        placed = dict(zip(perm, forced))
+        free = [s for s in slots if s not in placed]
+        for fill in itertools.product(due, repeat=len(free)):
+            p = 1.0 / len(perms)
+            for s_, i in zip(free, fill):
+                ws = w_old if s_ == 0 else w_new
+                tot = sum(ws.values())
+                p *= ws[i] / tot if tot > 0 else 0.0
+            if p == 0.0:
+                continue
+            seq = [None] * cycles
+            for s_, i in placed.items():
+                seq[s_] = NAMES[i]
+            for s_, i in zip(free, fill):
+                seq[s_] = NAMES[i]
+            dist[tuple(seq)] = dist.get(tuple(seq), 0.0) + p
+    return dist
+
+
+def task_midstep(arg):
+    """The weights are re-read for every free slot (documented: probabilities may change between
+    the moves of one step): edit a weight after the first yielded name."""
+    counters = {"executions": 0, "transitions": 0, "instances": 0, "nontrivial": 0, "skipped_outside_precondition": 0, "midstep_edits": 0}
+    viol, seen = [], {}
+    for table, cycles in arg["items"]:
+        table = [tuple(x) for x in table]
+        if sum(m for _, _, m in table) > cycles or cycles < 2:
+            continue
+        for step in (0, 1):
+            if not valid(table, cycles, step):
+                continue
+            for mi in range(len(table)):
+                for new_w in (0, 1, 3):
+                    if new_w == table[mi][1]:
+                        continue
+                    due = [i for i, (iv, w, m) in enumerate(table) if step % iv == 0]
+                    if due and sum((new_w if i == mi else table[i][1]) for i in due) <= 0 and sum(table[i][2] for i in due) < cycles:
+                        continue  # all due weights zero with a free slot left: outside the precondition
+                    mc = make_mc(table, cycles)
+                    mc.step_count = step
+
+                    def run(ch, mc=mc):
+                        stor = mc.moves[NAMES[mi]]
+                        stor.probability = float(table[mi][1])
+                        install(mc, ChoiceRNG(ch))
+                        names = []
+                        for k, n in enumerate(mc.step()):
+                            names.append(str(n))
+                            if k == 0:
+                                stor.probability = float(new_w)
+                        return tuple(names)
+
+                    got, st = {}, Stats()
+                    try:
+                        for ch, names in explore(run, stats=st):
+                            got[names] = got.get(names, 0.0) + ch.probability
+                        err = None
+                    except Exception as e:  # noqa: BLE001
+                        from qv.core import HarnessError
+
+                        if isinstance(e, HarnessError):
+                            raise
+                        err = f"{type(e).__name__}: {e}"
+                    mc.close()
+                    counters["executions"] += st.executions
+                    counters["transitions"] += st.points
+                    counters["instances"] += 1
+                    counters["midstep_edits"] += 1
+                    ref = reference_midstep(table, cycles, step, mi, new_w)
+                    if len(ref) > 1:
+                        counters["nontrivial"] += 1
+                    keys = set(ref) | set(got)
+                    worst = max((abs(ref.get(k, 0.0) - got.get(k, 0.0)) for k in keys), default=0.0)
+                    if err or worst > TOL:
+                        sig = f"C09/schedule/weight-edited-between-moves-of-one-step/{'exception' if err else 'distribution-differs'}"
+                        seen[sig] = seen.get(sig, 0) + 1
+                        if seen[sig] <= 2:
+                            viol.append({"signature": sig, "what": f"table {table} cycles {cycles} step {step}: weight of {NAMES[mi]} set to {new_w} after the first move of the step: {err or 'distribution differs from the reference by %.3g' % worst}", "replay": {"check": PID, "func": "task_midstep", "arg": {"items": [[table, cycles]]}}})
+    counters["violating_instances"] = sum(seen.values())
+    return {"counters": counters, "sets": {}, "violations": viol, "samples": []}
+
+
 def tables(n, alphabet):
     return [tuple(t) for t in itertools.product(alphabet, repeat=n)]
 
@@ -336,6 +434,10 @@ def run(tier, seed):
     ch2 = max(1, len(two) // 64)
     for r in pmap(__name__, "task_edits", [{"items": two[i : i + ch2]} for i in range(0, len(two), ch2)]):
         acc.add(r)
+    two_s = [(t, c) for t in tables(2, SMALL if tier == "quick" else MID) for c in (2, 3)]
+    ch3 = max(1, len(two_s) // 32)
+    for r in pmap(__name__, "task_midstep", [{"items": two_s[i : i + ch3]} for i in range(0, len(two_s), ch3)]):
+        acc.add(r)
     viol = list(acc.violations)
     nref = refusal(viol)
     rep.violations = viol
@@ -350,6 +452,7 @@ def run(tier, seed):
         "skipped_outside_precondition": acc.n("skipped_outside_precondition"),
         "add_move_refusal_cases": nref,
         "in_place_table_edits_checked": acc.n("edits"),
+        "mid_step_weight_edits_checked": acc.n("midstep_edits"),
         "violating_instances": acc.n("violating_instances"),
         "bound": f"tables of 1-2 moves over interval{{1,2,3}} x weight{{0,1,3}} x min{{0,1,2}}, tables of 3 moves over {'interval{1,2} x weight{0,1} x min{0,1}' if tier == 'quick' else 'interval{1,2,3} x weight{0,1,3} x min{0,1}'}; cycles 1-4; steps 0-6; every generator answer",
         "exhaustive": True,
@@ -360,6 +463,9 @@ def run(tier, seed):
 
 
 def replay(data):
+    if data.get("func") == "task_midstep":
+        res = task_midstep(data["arg"])
+        return {"signatures": sorted({v["signature"] for v in res["violations"]}), "counters": res["counters"]}
     if data.get("func") == "task_edits":
         res = task_edits(data["arg"])
         return {"signatures": sorted({v["signature"] for v in res["violations"]}), "counters": res["counters"]}
